@@ -142,6 +142,18 @@ func (s *subLog) line(kind, final string) string {
 
 type subscribeFn func(rd *round, s *subLog, flag bool)
 
+// crowd, when positive, makes runRound register that many subscriptions before the writers start (crowd rounds).
+var crowd int
+
+// writes returns how many operations a writer performs in this round (fewer when every write notifies a crowd).
+func writes(rng *hx.Rng) int {
+	if crowd > 0 {
+		return rng.Range(5, 12)
+	}
+
+	return rng.Range(10, 40)
+}
+
 // runRound starts writers / subscribers / unsubscribers and joins them.
 func runRound(r *hx.Run, rng *hx.Rng, kind string, writers []func(*hx.Rng), subscribe subscribeFn, pre func(rd *round)) (*round, bool) {
 	rd := &round{}
@@ -150,7 +162,26 @@ func runRound(r *hx.Run, rng *hx.Rng, kind string, writers []func(*hx.Rng), subs
 	}
 	var wg sync.WaitGroup
 	start := make(chan struct{})
-	handles := make(chan *subLog, 64)
+	handles := make(chan *subLog, 64+crowd)
+	if crowd > 0 {
+		// a crowd of subscriptions exists before anything is written (so the callback list is long); bystanders from
+		// the middle of the list are unsubscribed while the writers run: everybody else must still see every change
+		first := len(rd.subs)
+		for i := 0; i < crowd; i++ {
+			s := rd.newSub()
+			if p := hx.Safely(func() { subscribe(rd, s, rng.Bool()) }); p != "" {
+				r.Fail("panic", "OnUpdate panicked: "+p, map[string]string{"oracle": "panic", "mode": "stress", "kind": kind})
+
+				return rd, false
+			}
+		}
+		for i := first + 3; i < first+crowd-3; i++ {
+			if rng.Chance(1, 2) {
+				handles <- rd.subs[i]
+			}
+		}
+		r.Count("stress:" + kind + ":crowd-rounds")
+	}
 	for _, w := range writers {
 		w, wr := w, hx.NewRng(rng.U64())
 		wg.Add(1)
@@ -163,6 +194,9 @@ func runRound(r *hx.Run, rng *hx.Rng, kind string, writers []func(*hx.Rng), subs
 		}()
 	}
 	nsub := rng.Range(1, 3)
+	if crowd > 0 {
+		nsub = 1
+	}
 	var subWg sync.WaitGroup
 	for i := 0; i < nsub; i++ {
 		sr := hx.NewRng(rng.U64())
@@ -194,6 +228,9 @@ func runRound(r *hx.Run, rng *hx.Rng, kind string, writers []func(*hx.Rng), subs
 	// churners subscribe and unsubscribe in a tight loop while the writers run: many registrations, so that the
 	// narrow hand-off windows (registration vs. a concurrent update) are actually hit
 	nchurn := rng.Range(0, 2)
+	if crowd > 0 {
+		nchurn = rng.Range(0, 1)
+	}
 	for i := 0; i < nchurn; i++ {
 		cr := hx.NewRng(rng.U64())
 		wg.Add(1)
@@ -215,6 +252,9 @@ func runRound(r *hx.Run, rng *hx.Rng, kind string, writers []func(*hx.Rng), subs
 		}()
 	}
 	nuns := rng.Range(1, 2)
+	if crowd > 0 {
+		nuns = rng.Range(2, 3)
+	}
 	go func() { subWg.Wait(); close(handles) }()
 	for i := 0; i < nuns; i++ {
 		ur := hx.NewRng(rng.U64())
@@ -254,7 +294,7 @@ func stressVar(r *hx.Run, rng *hx.Rng) bool {
 	writers := make([]func(*hx.Rng), nw)
 	for w := 0; w < nw; w++ {
 		w := w
-		n := rng.Range(10, 40)
+		n := writes(rng)
 		writers[w] = func(wr *hx.Rng) {
 			for j := 1; j <= n; j++ {
 				val := (w+1)*100000 + j
@@ -371,7 +411,7 @@ func stressSet(r *hx.Run, rng *hx.Rng) bool {
 	// report exactly the change it makes, whatever it sees of the argument
 	arg := ds.NewSet[int](randSubset(rng, u)...)
 	for w := 0; w < nw; w++ {
-		n := rng.Range(10, 40)
+		n := writes(rng)
 		writers[w] = func(wr *hx.Rng) {
 			for j := 0; j < n; j++ {
 				switch wr.Intn(12) {
@@ -437,6 +477,75 @@ func stressSet(r *hx.Run, rng *hx.Rng) bool {
 		return false
 	}
 	emitRound(r, "set", "", rd, "ssub", showInts(s.ToSlice()))
+
+	return true
+}
+
+// setWrite performs one random write operation on a reactive set.
+func setWrite(s reactive.Set[int], wr *hx.Rng, u int) {
+	switch wr.Intn(9) {
+	case 0:
+		s.Add(wr.Intn(u))
+	case 1:
+		s.Delete(wr.Intn(u))
+	case 2:
+		s.AddAll(ds.NewSet(randSubset(wr, u)...))
+	case 3:
+		s.DeleteAll(ds.NewSet(randSubset(wr, u)...))
+	case 4, 5:
+		s.Apply(mkMut(randSubset(wr, u), randSubset(wr, u)))
+	case 6:
+		x := wr.Intn(u)
+		s.Compute(func(cur ds.ReadableSet[int]) ds.SetMutations[int] {
+			if cur.Has(x) {
+				return mkMut(nil, []int{x})
+			}
+
+			return mkMut([]int{x}, nil)
+		})
+	default:
+		s.Replace(ds.NewSet(randSubset(wr, u)...))
+	}
+}
+
+// stressDerivedSet: subscribers of a DerivedSet that is written through its sources (inherited mutations) and
+// directly, at the same time.  All these writers must notify in the order in which they changed the value.
+func stressDerivedSet(r *hx.Run, rng *hx.Rng) bool {
+	const u = 6
+	d := reactive.NewDerivedSet[int]()
+	src := []reactive.Set[int]{reactive.NewSet[int](randSubset(rng, u)...), reactive.NewSet[int](randSubset(rng, u)...)}
+	d.InheritFrom(src[0], src[1])
+	var writers []func(*hx.Rng)
+	for w := 0; w < 2; w++ {
+		w, n := w, writes(rng)
+		writers = append(writers, func(wr *hx.Rng) { // through a source
+			for j := 0; j < n; j++ {
+				setWrite(src[w], wr, u)
+				if wr.Chance(1, 3) {
+					runtime.Gosched()
+				}
+			}
+		})
+	}
+	for w := rng.Range(1, 2); w > 0; w-- {
+		n := writes(rng)
+		writers = append(writers, func(wr *hx.Rng) { // directly
+			for j := 0; j < n; j++ {
+				setWrite(d, wr, u)
+				if wr.Chance(1, 3) {
+					runtime.Gosched()
+				}
+			}
+		})
+	}
+	sub := func(rd *round, sl *subLog, flag bool) {
+		sl.unsub = d.OnUpdate(func(m ds.SetMutations[int]) { rd.body(sl, showMut(m)) }, flag)
+	}
+	rd, ok := runRound(r, rng, "dset", writers, sub, func(rd *round) { sub(rd, rd.newSub(), true) })
+	if !ok {
+		return false
+	}
+	emitRound(r, "dset", "", rd, "ssub", showInts(d.ToSlice()))
 
 	return true
 }
@@ -591,10 +700,26 @@ func judgeLogLine(r *hx.Run, line string) string {
 		fold := map[int]bool{}
 		for _, n := range ns {
 			ad := strings.SplitN(n, ":", 2)
+			added := map[int]bool{}
 			for _, x := range parseInts(ad[0]) {
+				// every note is a true difference in the order the changes happened: what it adds was absent ...
+				if fold[x] {
+					fail(r, kind, "true-difference", fmt.Sprintf("note %s adds %d, which the notes before it had already added", n, x), line)
+
+					return "accept"
+				}
+				added[x] = true
+			}
+			for x := range added {
 				fold[x] = true
 			}
 			for _, x := range parseInts(ad[1]) {
+				// ... and what it deletes was present (e.g. never "delete 7" before "add 7")
+				if !fold[x] {
+					fail(r, kind, "true-difference", fmt.Sprintf("note %s deletes %d, which the notes before it never added", n, x), line)
+
+					return "accept"
+				}
 				delete(fold, x)
 			}
 		}
@@ -628,7 +753,7 @@ func emitRound(r *hx.Run, kind, histLine string, rd *round, lineKind, final stri
 	mid := false
 	for i, s := range rd.subs {
 		lk := lineKind
-		if kind == "set" && i == 0 {
+		if (kind == "set" || kind == "dset") && i == 0 {
 			lk = "sref"
 		}
 		line := s.line(lk, final)
@@ -640,7 +765,7 @@ func emitRound(r *hx.Run, kind, histLine string, rd *round, lineKind, final stri
 		ns := noteTokens(strings.Fields(line)[3:])
 		r.CountN("stress:"+kind+":notes", len(ns))
 		r.Count("stress:" + kind + ":subscriptions:" + strings.Fields(line)[1])
-		if !(kind == "set" && i == 0) && len(ns) >= 2 && (kind != "var" || !strings.HasSuffix(ns[0], ":0") && strings.HasPrefix(ns[0], "0:")) {
+		if !((kind == "set" || kind == "dset") && i == 0) && len(ns) >= 2 && (kind != "var" || !strings.HasSuffix(ns[0], ":0") && strings.HasPrefix(ns[0], "0:")) {
 			mid = true
 		}
 	}
@@ -662,6 +787,28 @@ func stressOne(r *hx.Run, kind string, seed uint64) bool {
 		return stressSet(r, rng)
 	case "event":
 		return stressEvent(r, rng)
+	case "dset":
+		return stressDerivedSet(r, rng)
+	case "crowd-var", "crowd-set", "crowd-event", "crowd-dset":
+		crowd = rng.Range(40, 80)
+		defer func() { crowd = 0 }()
+
+		return stressOne2(r, strings.TrimPrefix(kind, "crowd-"), rng)
+	}
+
+	return true
+}
+
+func stressOne2(r *hx.Run, kind string, rng *hx.Rng) bool {
+	switch kind {
+	case "var":
+		return stressVar(r, rng)
+	case "set":
+		return stressSet(r, rng)
+	case "event":
+		return stressEvent(r, rng)
+	case "dset":
+		return stressDerivedSet(r, rng)
 	}
 
 	return true
@@ -682,7 +829,8 @@ func runStressLines(r *hx.Run, op string) {
 
 func runStress(r *hx.Run) {
 	rounds := 4000 * r.Scale
-	kinds := []string{"var", "set", "var", "set", "event"}
+	kinds := []string{"var", "set", "dset", "var", "crowd-var", "set", "event", "dset", "crowd-set", "var", "set", "crowd-event",
+		"var", "set", "dset", "crowd-var", "event", "set", "crowd-dset", "var"}
 	for i := 0; i < rounds; i++ {
 		seed := r.Rng.U64()
 		kind := kinds[i%len(kinds)]
